@@ -42,6 +42,15 @@ br_ecdsa_i31_bits2int(uint32_t *x,
 	}
 	br_i31_zero(x, ebitlen);
 	br_i31_decode(x, src, len);
+
+	/*
+	 * br_i31_decode() announces the true bit length of the value,
+	 * which is secret when the source is a nonce. Announce the
+	 * (public) length of the source instead, so that the shift
+	 * processes a fixed number of words.
+	 */
+	hbitlen = (uint32_t)len << 3;
+	x[0] = hbitlen + (hbitlen / 31);
 	br_i31_rshift(x, sc);
 	x[0] = ebitlen;
 }
